@@ -1138,7 +1138,7 @@ def translate(section, path, flags=()):
     if u.uses_cb:
         L.append("  /-- every byte handed to `interface->write`, in order -/\n  written : List UInt8")
         L.append("  /-- number of calls of `interface->flush` -/\n  flushes : Nat")
-    L.append("  ub : Bool\n  outOfFuel : Bool\n  rest : ρ\n")
+    L.append("  ub : Bool\n  outOfFuel : Bool\n  rest : ρ\nderiving DecidableEq\n")
     L.append("variable {ρ : Type}\n")
     L.append("/-- record the outcome of a CHECK -/\ndef CCtx.chk (c : CCtx ρ) (ok : Bool) : CCtx ρ := if ok then c else { c with ub := true }")
     if u.uses_cb:
